@@ -100,13 +100,22 @@ def check_cuts(case):
     items = case["items"]
     text, ends, views = buf.render_stream(items)
     cuts = [c % max(1, len(text)) for c in case["cuts"]]
-    n, split = run_partition(text, ends, views, cuts, _threshold(case, items))
+    if case.get("debug"):
+        # the same stream with the library's DEBUG logging switched on (an operator's choice that must not change framing)
+        from harness.core import library_logging
+
+        with library_logging():
+            n, split = run_partition(text, ends, views, cuts, _threshold(case, items))
+    else:
+        n, split = run_partition(text, ends, views, cuts, _threshold(case, items))
     labs = _labels(text, ends, cuts)
     if any(len(it["spec"].get("children", [])) >= 2 for it in items):
         labs.append("has-2+-children")
     if any(it.get("choices") is not None for it in items):
         labs.append("foreign-spelling")
     labs.append(f"T={case.get('threshold', 2048)}")
+    if case.get("debug"):
+        labs.append("library-debug-logging-on")
     return Info(nontrivial=split, labels=labs)
 
 
@@ -180,7 +189,7 @@ def stream_case(draw, max_msgs=8):
     items = draw(st.lists(buf.msg_item(), min_size=1, max_size=max_msgs))
     cuts = draw(st.lists(st.integers(0, 4000), min_size=0, max_size=12))
     thr = draw(st.sampled_from(["max", 2048, None, None]))
-    return {"items": items, "cuts": cuts, "threshold": thr}
+    return {"items": items, "cuts": cuts, "threshold": thr, "debug": draw(st.sampled_from([False, False, True]))}
 
 
 @st.composite
